@@ -3,7 +3,7 @@ import re
 
 from .. import facts, serde_audit
 from ..cfg import Cfg, bool_edges
-from ..common import arg_fields, arg_roots, calls_to, def_of, inst_of, method, target_of, blocks_assigning_field, gate_for
+from ..common import place_field_names, arg_fields, arg_roots, calls_to, def_of, inst_of, method, target_of, blocks_assigning_field, gate_for
 from ..prov import Prov, flatten, field_names
 from ..util import fns_by_key, keyname, place_of, norm, last
 
@@ -78,6 +78,50 @@ def _pipeline(ck, p, byk):
     chain_ok = all(cfg.dominates(st[a][0], st[b][0]) and st[a][0] != st[b][0] for a, b in zip(order, order[1:]))
     restore_ok = any(cfg.dominates(st["lint"][0], r) and cfg.dominates(r, st["overlaps"][0]) for r in restores)
     ck.decide(rule, "Linter::lint:order", chain_ok and restore_ok, f.span, "new_from_vec -> fill_with_curated -> lint -> restore -> remove_overlaps -> remove_ignored dominate each other in this order: %s (restore between lint and remove_overlaps: %s)" % (chain_ok, restore_ok))
+    # no shortcut: every path to a return has gone through the whole pipeline (a memoised or early
+    # answer would not have been filtered by the *current* ignore list / dictionary / configuration)
+    ib = st["ignored"][0]
+    bypass = []
+    n_defs = 0
+    for bi, b in enumerate(f.blocks):
+        if b["cleanup"]:
+            continue
+        defs = [sx["rv"] for sx in b["s"] if sx["k"] == "assign" and sx["lhs"] == [0]]
+        t = b["t"]
+        if t["k"] == "call" and t.get("dest") == [0]:
+            defs.append({"k": "call", "t": t})
+        for rv in defs:
+            n_defs += 1
+            if cfg.dominates(ib, bi) and bi != ib:
+                continue
+            # an answer produced without the pipeline is fine only if it is the empty list
+            roots = arg_roots(f, pv, rv["op"]) if rv["k"] == "use" else ({("call", bi, def_of(rv["t"]), inst_of(rv["t"]))} if rv["k"] == "call" else set())
+            empties = {o for o in roots if o[0] == "call" and re.search(r"vec::\{impl\}::(new|with_capacity)$|default::Default::default$", norm(o[3] or o[2] or ""))}
+            if rv["k"] == "call" and re.search(r"vec::\{impl\}::(new|with_capacity)$|default::Default::default$", norm(inst_of(rv["t"]) or def_of(rv["t"]))):
+                continue
+            if roots and roots == empties:
+                continue
+            bypass.append(f.loc((rv.get("t") or {}).get("ln") or b["s"][0]["ln"] if b["s"] else f.span))
+    ok_all = not bypass and n_defs >= 1
+    ck.decide(rule, "Linter::lint:every-return", ok_all, f.span, "every value returned by lint() is produced after remove_ignored (and hence, by the dominance chain, after the stages before it) or is an empty list: %s (%d return value definitions)%s" % (ok_all, n_defs, "" if ok_all else " — a non-empty answer is produced without the pipeline at %s: it has not been filtered by the current ignore list" % bypass))
+    # the only state lint() leaves behind is the restored configuration
+    writes = set()
+    for bi, b in enumerate(f.blocks):
+        if b["cleanup"]:
+            continue
+        for sx in b["s"]:
+            if sx["k"] == "assign" and len(sx["lhs"]) > 1 and sx["lhs"][0] == 1:
+                writes.add(".".join(e[2] for e in sx["lhs"][1:] if isinstance(e, list) and e[0] == "f"))
+    for bi, b in enumerate(f.blocks):
+        if b["cleanup"]:
+            continue
+        for sx in b["s"]:
+            if sx["k"] == "assign" and sx["rv"]["k"] == "ref" and sx["rv"].get("mut") and sx["rv"]["place"][0] == 1 and len(sx["rv"]["place"]) > 1:
+                path = ".".join(e[2] for e in sx["rv"]["place"][1:] if isinstance(e, list) and e[0] == "f")
+                if path:
+                    writes.add(path + "(&mut)")
+    extra_w = sorted(w for w in writes if w and not (w.startswith("lint_group.config") or w.startswith("lint_group(") or w == "lint_group"))
+    ck.decide(rule, "Linter::lint:self-writes", not extra_w, f.span, "fields of self written or mutably borrowed in lint(): %s; allowed: lint_group (the overlay and its restore, LintGroup::lint)%s" % (sorted(writes), "" if not extra_w else " — lint() leaves state behind in %s, so a later call can depend on an earlier one" % extra_w))
     # same document
     db = st["doc"][0]
     same_doc = result_of(f, pv, st["lint"][1]["args"][1], db) and result_of(f, pv, st["ignored"][1]["args"][2], db)
